@@ -83,14 +83,16 @@ func (c *Ctx) runTable(ts *tableSpec, fnLabel, pos string, paths []*Path) int {
 			allowed[a.Name] = m
 		}
 		bad := false
+		var extra []string
 		for _, l := range pa.Lits {
 			lc := ts.Lit(pa, l)
 			if !lc.OK {
-				o := c.undecided(ts.Rule, fmt.Sprintf("%s/unrecognised-condition", fnLabel), c.P.instrPos(l.In),
-					fmt.Sprintf("branch condition %q in region %s is not built from the declared atoms %v; the decision table cannot be read", l.T.Key(), ts.Region, atomNames(ts.Atoms)))
-				o.PathDump = dumpPath(c.P, i, pa)
-				bad = true
-				break
+				// a condition outside the declared atoms (conditional logging, a metrics
+				// guard …) is tolerated as long as the outcome does not depend on it: paths
+				// that differ only in such a condition fall into the same rows, and rows with
+				// two different outcomes are reported below.
+				extra = append(extra, l.String())
+				continue
 			}
 			if lc.Ignore {
 				continue
@@ -179,12 +181,15 @@ func (c *Ctx) runTable(ts *tableSpec, fnLabel, pos string, paths []*Path) int {
 					}
 				}
 				if prev, dup := rowsSeen[row]; dup && prev != got && firstBad == "" {
-					firstBad = fmt.Sprintf("two paths of region %s give different outcomes for the abstract input [%s]: {%s} vs {%s}", ts.Region, row, prev, got)
+					firstBad = fmt.Sprintf("two paths of region %s give different outcomes for the abstract input [%s]: {%s} vs {%s} — the behaviour depends on a condition outside the declared atoms %v", ts.Region, row, prev, got, extra)
 					return
 				}
 				rowsSeen[row] = got
 				if !okk && firstBad == "" {
 					firstBad = fmt.Sprintf("region %s, abstract input [%s]: reference requires {%s}, implementation does {%s}", ts.Region, row, strings.Join(exps, " | "), got)
+					if len(extra) > 0 {
+						firstBad += fmt.Sprintf(" (on a path taken under the additional condition(s) %v)", extra)
+					}
 				}
 				if len(expSeen) < 3 {
 					expSeen = append(expSeen, strings.Join(exps, " | "))
